@@ -445,10 +445,14 @@ fn followups(cfg: &Rc<Cfg>, spec: &Spec, ex: &Explored, res: &mut ConfigResult) 
         mon: spec.mon,
         validate: false,
     };
-    let mut done: BTreeMap<(&Hist, &Disk), ()> = BTreeMap::new();
+    // same world, same follow-up evaluation; only the C08/C09 clauses look at what happened to each
+    // job in the interrupted evaluation, so with them on the dispositions are part of the key
+    let by_disp = on(spec.mon, 8) || on(spec.mon, 9);
+    let mut done: BTreeSet<(&Hist, &Disk, Option<(&Vec<Disp>, &Vec<bool>)>)> = BTreeSet::new();
     for (t, tev) in ex.terminals.iter() {
-        // same world, same follow-up: but the C08/C09 clauses depend on dispositions, so key on them too
-        let _ = &mut done;
+        if !done.insert((&t.hist, &t.disk, if by_disp { Some((&t.disp, &t.started)) } else { None })) {
+            continue;
+        }
         let mut c2 = (**cfg).clone();
         c2.hist = t.hist.clone();
         c2.disk = t.disk.clone();
